@@ -1,7 +1,11 @@
 (** C08: ignored names / clients and un-anonymised addresses never reach the
     query log or the statistics.  Only statements; proofs in Proofs/LogPolicy.v.
-    The ignore engines are oracles ([e_qign], [e_sign] : normalised name -> bool). *)
-From AGH Require Import Base.Run Model.ClientIndex Model.LogPolicy Proofs.LogPolicy.
+    The ignore engines are functions [e_qign], [e_sign] : normalised name ->
+    bool in the general theorems; the second part instantiates them with the
+    MODELLED engine (Model/IgnoreEngine.v: aghnet.NewIgnoreEngine for plain
+    names, [||d^], wildcards, [|.^], substrings, in any letter case). *)
+From AGH Require Import Base.Run Base.RuleEngine Model.ClientIndex Model.IgnoreEngine Model.LogPolicy.
+From AGH Require Import Proofs.LogPolicy Proofs.IgnoreEngine.
 Local Open Scope N_scope.
 
 (** After ANY history of queries (each under its own configuration, ignore
@@ -143,3 +147,105 @@ Theorem C08_configured_anon_masks : forall enabled anon ops ev q,
   recorded_ip ev q = anonymize (fst (q_addr q)) /\ masked (recorded_ip ev q).
 Proof. exact configured_anon_masks. Qed.
 Print Assumptions C08_configured_anon_masks.
+
+(** * The modelled ignore engine (aghnet.NewIgnoreEngine) *)
+
+(** Every spelling of a name (any letter case, with or without the trailing
+    dot) is normalised to its lower-case form. *)
+Theorem C08_name_spellings_normalised : forall s d,
+  map LogPolicy.lower s = d -> d <> [] -> last d 0 <> 46 ->
+  LogPolicy.normalize s = d /\ LogPolicy.normalize (s ++ [46]) = d.
+Proof. exact normalize_spelling. Qed.
+Print Assumptions C08_name_spellings_normalised.
+
+(** A configured plain name, in ANY letter case, matches its lower-case form
+    (hence, with the previous theorem, every spelling of the name). *)
+Theorem C08_plain_entry_matched : forall entries rs e,
+  engine_of entries = Some rs -> In e entries ->
+  classify (RuleEngine.lower e) = ERule (IHost (RuleEngine.lower e)) ->
+  ignore_has rs (RuleEngine.lower e) = true.
+Proof. exact plain_entry_matched. Qed.
+Print Assumptions C08_plain_entry_matched.
+
+(** [||d^] in any letter case matches [d] and every host under it. *)
+Theorem C08_domain_entry_matched : forall entries rs e d h,
+  engine_of entries = Some rs -> In e entries ->
+  RuleEngine.lower e = c_pipe :: c_pipe :: d ++ [c_caret] ->
+  forallb is_plain_char d = true -> d <> [] ->
+  (h = d \/ exists x, x <> [] /\ forallb is_hostch x = true /\ h = x ++ c_dot :: d) ->
+  ignore_has rs h = true.
+Proof. exact domain_entry_matched. Qed.
+Print Assumptions C08_domain_entry_matched.
+
+(** [*.d] in any letter case matches every name under [d]. *)
+Theorem C08_wildcard_entry_matched : forall entries rs e d x,
+  engine_of entries = Some rs -> In e entries ->
+  RuleEngine.lower e = c_star :: c_dot :: d ->
+  forallb is_plain_char d = true -> d <> [] ->
+  ignore_has rs (x ++ c_dot :: d) = true.
+Proof. exact wildcard_entry_matched. Qed.
+Print Assumptions C08_wildcard_entry_matched.
+
+(** [|.^] matches the root. *)
+Theorem C08_root_entry_matched : forall entries rs e,
+  engine_of entries = Some rs -> In e entries ->
+  RuleEngine.lower e = [c_pipe; c_dot; c_caret] ->
+  ignore_has rs [c_dot] = true.
+Proof. exact root_entry_matched. Qed.
+Print Assumptions C08_root_entry_matched.
+
+(** [ignore_has] is urlfilter's DNSEngine.Match (the model of C01 / C02) on
+    the rules the entries stand for. *)
+Theorem C08_engine_is_urlfilter : forall rs host,
+  ignore_has rs host = snd (match_request (map to_rule rs) (req_of host)).
+Proof. exact ignore_has_is_match_request. Qed.
+Print Assumptions C08_engine_is_urlfilter.
+
+(** Never stored, over the modelled engine, for ALL histories: the name of
+    every stored record escapes (is not a configured plain name, not under a
+    configured [||d^] / [*.d], not the root under [|.^]) every ignore list of
+    the modelled forms that was in force when its query was processed. *)
+Theorem C08_configured_name_never_stored : forall evs e,
+  In e (all_log (run_log evs)) ->
+  exists ev q, In (LQuery ev q) evs /\ e = log_entry ev q /\
+    fst (fst e) = LogPolicy.normalize (q_name q) /\
+    forall entries, qlog_engine_is ev entries -> escapes entries (fst (fst e)).
+Proof. exact configured_name_never_stored. Qed.
+Print Assumptions C08_configured_name_never_stored.
+
+Theorem C08_configured_name_never_counted : forall evs s,
+  In s (st_stats (run_log evs)) ->
+  exists ev q, In (LQuery ev q) evs /\ s = stat_entry ev q /\
+    fst (fst s) = LogPolicy.normalize (q_name q) /\
+    forall entries, stats_engine_is ev entries -> escapes entries (fst (fst s)).
+Proof. exact configured_name_never_counted. Qed.
+Print Assumptions C08_configured_name_never_counted.
+
+Theorem C08_configured_plain_name_not_recorded : forall ev q st entries x,
+  qlog_engine_is ev entries -> In x entries ->
+  classify (RuleEngine.lower x) = ERule (IHost (RuleEngine.lower x)) ->
+  LogPolicy.normalize (q_name q) = RuleEngine.lower x ->
+  st_mem (process ev q st) = st_mem st.
+Proof. exact configured_plain_name_not_recorded. Qed.
+Print Assumptions C08_configured_plain_name_not_recorded.
+
+(** Premises satisfiable: a list with capitals of all four forms plus a
+    dropped too-wide entry; "MIXED.case.TEST." is ignored under the entry
+    "Mixed.Case.Test". *)
+Example C08_engine_premises_satisfiable :
+  exists rs, engine_of ex_entries = Some rs /\ length rs = 4%nat /\
+    classify (RuleEngine.lower (nth 0 ex_entries [])) = ERule (IHost ex_lower_name) /\
+    ignore_has rs (LogPolicy.normalize [77;73;88;69;68;46;99;97;115;101;46;84;69;83;84;46]) = true /\
+    ignore_has rs [115;117;98;46;97;100;115;46;117;112;112;101;114] = true /\
+    ignore_has rs [102;111;111;46;99;97;112;46;119;105;108;100] = true /\
+    ignore_has rs [46] = true /\
+    ignore_has rs [99;97;112;46;119;105;108;100] = false /\
+    ignore_has rs [120] = false /\
+    ignore_has rs [111;107;46;101;120;97;109;112;108;101] = false.
+Proof. exact ex_entries_modelled. Qed.
+
+(** The slip of not lower-casing the configured list lets the name through. *)
+Example C08_unlowered_entry_matches_nothing :
+  ignore_has [IHost (nth 0 ex_entries [])] ex_lower_name = false /\
+  ignore_has [IHost (RuleEngine.lower (nth 0 ex_entries []))] ex_lower_name = true.
+Proof. exact unlowered_entry_matches_nothing. Qed.
